@@ -71,3 +71,44 @@ Example c10_nonvacuous :
   node_status 900000000010 (fold_left cstep evs (enroll 7%N a (5, CAnswer))) = Good /\
   node_status 1800000000006 (fold_left cstep evs (enroll 7%N a (5, CAnswer))) = Questionable.
 Proof. vm_compute. repeat split; discriminate. Qed.
+
+(* ------------------------------------------------------------------------------------------
+   The executable checker c10_ok (run/Run_TableCheck.v), which is what is evaluated on the
+   dumps of the REAL routing table, versus the model the theorems above are about. *)
+From BT Require Import run.Run_Table run.Run_TableCheck proofs.Checker_Table_Facts.
+
+(* completeness on the model: on the model's own observations the checker never raises an alarm,
+   for every local id and every script in which the router addresses come first, no offered or
+   named address is the placeholder 127.0.0.1:0 of empty slots, and the clock readings never go
+   back (what the generators emit).  The checker's clause "two unanswered queries while not good:
+   not reported" treats a hearsay mention as a reset -- the known finding F-C10 above is thereby
+   excluded from the clause, and with it the model passes everything. *)
+Theorem c10_checker_accepts_model : forall (local : N) (ops : list rtop),
+  (routers_first ops && forallb rtop_okb ops) && times_mono ops = true ->
+  c10_ok ops (model_obs local ops) = None.
+Proof. exact c10_ok_model_silent. Qed.
+
+(* soundness: whenever the checker accepts a trace, (1) at every dump each listed contact that is
+   reported good has an answer, or a query received while it was known, less than 15 minutes old in
+   the history of the operations so far (c10_hist: newest first; kind 0 answer, 1 hearsay, 2 query
+   received while known, 3 query sent while known), and no listed contact has two unanswered
+   queries (two_unanswered: the checker's own definition of that clause); (2) a contact whose
+   answer was just offered is, if listed at that instant, listed as good *)
+Theorem c10_checker_sound : forall (ops : list rtop) (obs : list rtobs),
+  c10_ok ops obs = None ->
+  (forall k t d, nth_error ops k = Some (TDump t) -> nth_error obs k = Some (ObDump d) ->
+     forall s, In s (live_of d) ->
+       (st_of s = 2%N ->
+          exists e, In e (c10_hist ops obs k)
+                    /\ fst (fst (fst e)) = id_of s /\ snd (fst (fst e)) = addr_of s
+                    /\ (ev_kind e = 0%N \/ ev_kind e = 2%N)
+                    /\ t - ev_time e < min15)
+       /\ two_unanswered (c10_hist ops obs k) (id_of s) (addr_of s) = false)
+  /\ (forall k t id a d,
+        nth_error ops k = Some (TOffer t true id a) -> nth_error ops (S k) = Some (TDump t) ->
+        nth_error obs (S k) = Some (ObDump d) -> (k < length obs)%nat ->
+        forall s, In s (live_of d) -> hd_s s = (id, a) -> st_of s = 2%N).
+Proof. exact c10_ok_sound. Qed.
+
+Print Assumptions c10_checker_accepts_model.
+Print Assumptions c10_checker_sound.
